@@ -232,6 +232,9 @@ package keeper
 
 //@ define sel(a) = reporter.Selectors[accbytes(a)]
 
+// nsel(r): the number of selectors of reporter r (entries of reporter.Selectors whose Reporter field is r).
+//@ define nsel(r) = matchcount(reporter.Selectors, "Reporter", r)
+
 //@ func (k msgServer).SwitchReporter(goCtx, msg) (resp, err)
 //@ requires [msg_present] msg != nil
 //@ requires [addresses_checked_by_ValidateBasic] bech32ok(msg.SelectorAddress) && bech32ok(msg.ReporterAddress)
@@ -241,4 +244,42 @@ package keeper
 //@ ensures [an_existing_lock_survives_a_switch_away_from_a_reporter_that_never_reported] err == nil && ret(GetReporterTokensAtBlock, 0) == 0 ==> sel(msg.SelectorAddress).LockedUntilTime == old(sel(msg.SelectorAddress).LockedUntilTime)
 //@ ensures [switching_away_from_a_reporter_that_reported_locks_for_the_unbonding_period] err == nil && ret(GetReporterTokensAtBlock, 0) != 0 ==> sel(msg.SelectorAddress).LockedUntilTime == blocktime(goCtx) + ret(UnbondingTime, 0)
 //@ ensures [a_reporter_cannot_switch_away_from_itself] old(has(reporter.Selectors, accbytes(msg.SelectorAddress))) && old(bytes(sel(msg.SelectorAddress).Reporter)) == accbytes(msg.SelectorAddress) ==> err != nil && nothing_written()
+//@ ensures [a_reporter_at_its_cap_takes_no_more_selectors] err == nil ==> old(nsel(accbytes(msg.ReporterAddress))) < old(reporter.Params.MaxSelectors)
+//@ ensures [switching_needs_the_new_reporters_minimum] err == nil ==> ret(HasMin, 0)
 //@ ensures [only_the_signers_selection_is_written] forall a bytes :: a != accbytes(msg.SelectorAddress) ==> (has(reporter.Selectors, a) <==> old(has(reporter.Selectors, a))) && reporter.Selectors[a] == old(reporter.Selectors[a])
+
+// ---- joining a reporter (C10) ----
+
+//@ func (k msgServer).SelectReporter(goCtx, msg) (resp, err)
+//@ requires [msg_present] msg != nil && bech32ok(msg.SelectorAddress) && bech32ok(msg.ReporterAddress)
+//@ modifies reporter.Selectors
+//@ ensures [a_selector_belongs_to_one_reporter_only] old(has(reporter.Selectors, accbytes(msg.SelectorAddress))) ==> err != nil && nothing_written()
+//@ ensures [the_reporter_must_exist] !old(has(reporter.Reporters, accbytes(msg.ReporterAddress))) ==> err != nil && nothing_written()
+//@ ensures [a_reporter_at_its_cap_takes_no_more_selectors] err == nil ==> old(nsel(accbytes(msg.ReporterAddress))) < old(reporter.Params.MaxSelectors)
+//@ ensures [joining_needs_the_reporters_minimum_in_bonded_tokens] err == nil ==> ret(CheckSelectorsDelegations, 0) >= old(reporter.Reporters[accbytes(msg.ReporterAddress)].MinTokensRequired)
+//@ ensures [the_selector_is_recorded_for_that_reporter] err == nil ==> has(reporter.Selectors, accbytes(msg.SelectorAddress)) && bytes(reporter.Selectors[accbytes(msg.SelectorAddress)].Reporter) == accbytes(msg.ReporterAddress)
+//@ ensures [other_selectors_untouched] forall a bytes :: a != accbytes(msg.SelectorAddress) ==> (has(reporter.Selectors, a) <==> old(has(reporter.Selectors, a))) && reporter.Selectors[a] == old(reporter.Selectors[a])
+
+// ---- jail (C10, C11) ----
+//@ define rp(a) = reporter.Reporters[bytes(a)]
+
+//@ func (k Keeper).JailReporter(ctx, reporterAddr, jailDuration) (err)
+//@ requires [duration_in_seconds_fits_a_duration] jailDuration < 9223372036
+//@ modifies reporter.Reporters
+//@ ensures [jailed_until_block_time_plus_the_duration] err == nil ==> has(reporter.Reporters, bytes(reporterAddr)) && rp(reporterAddr).Jailed && rp(reporterAddr).JailedUntil == blocktime(ctx) + jailDuration * 1000000000
+//@ ensures [an_unknown_or_already_jailed_reporter_is_rejected] !old(has(reporter.Reporters, bytes(reporterAddr))) || old(rp(reporterAddr).Jailed) ==> err != nil && nothing_written()
+//@ ensures [other_reporters_untouched] forall a bytes :: a != bytes(reporterAddr) ==> (has(reporter.Reporters, a) <==> old(has(reporter.Reporters, a))) && reporter.Reporters[a] == old(reporter.Reporters[a])
+//@ ensures [terms_unchanged] err == nil ==> rp(reporterAddr).CommissionRate == old(rp(reporterAddr).CommissionRate) && rp(reporterAddr).MinTokensRequired == old(rp(reporterAddr).MinTokensRequired)
+
+//@ func (k Keeper).UnjailReporter(ctx, reporterAddr, reporter) (err)
+//@ modifies reporter.Reporters
+//@ ensures [only_a_jailed_reporter_whose_jail_time_has_passed_is_released] err == nil ==> reporter.Jailed && blocktime(ctx) >= reporter.JailedUntil
+//@ ensures [released] err == nil ==> has(reporter.Reporters, bytes(reporterAddr)) && !rp(reporterAddr).Jailed
+//@ ensures [too_early_or_not_jailed_changes_nothing] !reporter.Jailed || blocktime(ctx) < reporter.JailedUntil ==> err != nil && nothing_written()
+//@ ensures [other_reporters_untouched] forall a bytes :: a != bytes(reporterAddr) ==> (has(reporter.Reporters, a) <==> old(has(reporter.Reporters, a))) && reporter.Reporters[a] == old(reporter.Reporters[a])
+
+//@ func (k msgServer).UnjailReporter(goCtx, msg) (resp, err)
+//@ requires [msg_present] msg != nil && bech32ok(msg.ReporterAddress)
+//@ modifies reporter.Reporters
+//@ ensures [release_only_after_the_jail_time] err == nil ==> old(has(reporter.Reporters, accbytes(msg.ReporterAddress))) && old(reporter.Reporters[accbytes(msg.ReporterAddress)].Jailed) && blocktime(goCtx) >= old(reporter.Reporters[accbytes(msg.ReporterAddress)].JailedUntil) && !reporter.Reporters[accbytes(msg.ReporterAddress)].Jailed
+//@ ensures [other_reporters_untouched] forall a bytes :: a != accbytes(msg.ReporterAddress) ==> (has(reporter.Reporters, a) <==> old(has(reporter.Reporters, a))) && reporter.Reporters[a] == old(reporter.Reporters[a])
